@@ -273,16 +273,9 @@ instance (r : Registry) : Decidable (RealOK r) := by unfold RealOK; infer_instan
 
 theorem realLoad_empty : realLoad [] = .ok [] := rfl
 
-theorem saveText_shape (r : Registry) : ∃ body, saveText r = '{' :: (body ++ ['}']) :=
-  render_obj_shape 0 _
-
 /-- A saved file is classified as JSON holding the value `save` handed over. -/
-theorem classify_saved (r : Registry) (h : RealOK r) : classify (realDump r) = some (.value (saveSorted r)) := by
-  obtain ⟨body, e⟩ := saveText_shape r
-  have hp := parse_saveText r h.1 h.2.1 h.2.2
-  have hdec := decodeUtf8_encode_ascii (saveText r) (render_ascii 0 _)
-  rw [e] at hp hdec
-  simp only [classify, realDump, saveBytes, e, hdec, hp]
+theorem classify_saved (r : Registry) (h : RealOK r) : classify (realDump r) = some (.value (saveSorted r)) :=
+  classify_saveBytes r h.1 h.2.1 h.2.2
 
 theorem realLoad_dump (r : Registry) (h : RealOK r) : realLoad (realDump r) = .ok r := by
   have hl := load_saveSorted r h.1 h.2.2
